@@ -50,6 +50,20 @@ def run(ctx):
                             replay={"n": n, "note": "evaluate the contract's quorum expression at n"}, key="contract:%d" % n)
     ctx.cov["traces_validated_against_impl"] = len(rows)
     ctx.cov["mismatches"] = len(bad)
+    # the explorer's own threshold (explorer-backend/processor verifyVAA, an anchor of this property): decided on real signatures for
+    # set sizes n and counts floor(2n/3) / floor(2n/3)+1
+    rcx, outx, tracex = core.harness_pkg(ctx, "explorer_processor", "^TestVerifC07Explorer$")
+    xrows = [r for r in core.read_jsonl(tracex) if r.get("k") == "c07x"]
+    if rcx != 0 or not xrows:
+        ctx.problem("correspondence", "go harness C07 (explorer verifyVAA)", outx[-1500:])
+    else:
+        ctx.cov["explorer_threshold_decisions"] = len(xrows)
+        ctx.cov["explorer_set_sizes"] = len({r["n"] for r in xrows})
+        for r in xrows:
+            if r["mon"]:
+                ctx.problem("monitor", r["mon"][0], "observed on explorer-backend/processor.verifyVAA with real signatures", concrete=True,
+                            replay={"guardian_set_size": r["n"], "valid_signatures": r["count"], "accepted": r["accepted"]}, key="explorer:threshold")
+                break
     # explorer-backend links a cached copy of the node module: report whether its quorum.go equals the tree's
     try:
         gm = open(os.path.join(core.REPO, "explorer-backend/go.mod")).read()
